@@ -16,7 +16,7 @@ RULE = ('Hypothesis synthetic survey trees written per case with astropy: 1-4 pl
         'Oracle: decode the expected value of every returned element from the request.  spec_append: blocks (1-4)x(1-12), pixshift -5..5, int and '
         'float dtypes: both blocks present at the documented offsets, zeros elsewhere.  Non-trivial = >= 2 plate-MJD groups with different '
         'pixel counts, requests not sorted by group, >= 1 repeated plate.')
-ASSUMPTIONS = ['explicit-request calling conventions only: vectors, scalar plate + fibres, scalars, MJD omitted (the all-fibres mode is not a request vector and currently cannot run, see DESIGN.md O9); topdir=/run1d= keywords are not used',
+ASSUMPTIONS = ['explicit-request calling conventions only: vectors, scalar plate + fibres, scalars, MJD omitted (the all-fibres mode is not a request vector and currently cannot run, see DESIGN.md O9); the topdir= keyword is not used; run2d=/run1d= keywords are used together with path= and an environment without RUN2D/RUN1D',
                'spZbest (and photoPlate when written) exists for every plate-MJD of a tree',
                'files are written by the harness with astropy.io.fits in the spPlate HDU layout (0 flux, 1 invvar, 2 andmask, 3 ormask, 4 disp, 5 plugmap, 6 sky)']
 
@@ -58,7 +58,7 @@ def tree_case(draw):
         for _ in range(nreq):
             g = draw(st.integers(0, len(obs) - 1))
             req.append([g, draw(st.integers(1, obs[g]['nf']))])
-    return dict(obs=obs, conv=conv, req=req, config=draw(st.sampled_from(['env', 'env', 'path'])), photo=draw(st.booleans()))
+    return dict(obs=obs, conv=conv, req=req, config=draw(st.sampled_from(['env', 'env', 'path', 'path-keywords'])), photo=draw(st.booleans()))
 
 
 def write_tree(top, case):
@@ -71,7 +71,7 @@ def write_tree(top, case):
         fits.HDUList([fits.PrimaryHDU(), fits.BinTableHDU(pl)]).writeto(os.path.join(top, 'platelist.fits'))
     for o in case['obs']:
         plate, mjd, nf, npix = o['plate'], o['mjd'], o['nf'], o['npix']
-        d = top if case['config'] == 'path' else os.path.join(top, RUN2D, '%04d' % plate)
+        d = top if case['config'].startswith('path') else os.path.join(top, RUN2D, '%04d' % plate)
         os.makedirs(os.path.join(d, RUN1D), exist_ok=True)
         F = np.arange(1, nf + 1)[:, None]
         P = np.arange(npix)[None, :]
@@ -121,8 +121,13 @@ def tree_body(case):
         os.environ.update({'BOSS_SPECTRO_REDUX': top, 'RUN2D': RUN2D, 'RUN1D': RUN1D, 'SPECTRO_MATCH': os.path.join(top, 'match'),
                            'PHOTO_RESOLVE': '/nonexistent/resolve'})
         kw = {}
-        if case['config'] == 'path':
+        if case['config'].startswith('path'):
             kw['path'] = top
+        if case['config'] == 'path-keywords' and conv != 'mjd-omitted':
+            # everything handed over explicitly: no reduction version in the environment at all
+            kw.update(run2d=RUN2D, run1d=RUN1D)
+            for k in ('RUN2D', 'RUN1D', 'BOSS_SPECTRO_REDUX'):
+                os.environ.pop(k, None)
         plates = np.array([obs[g]['plate'] for g, f in req], dtype='i4')
         mjds = np.array([obs[g]['mjd'] for g, f in req], dtype='i4')
         fibs = np.array([f for g, f in req], dtype='i4')
@@ -201,6 +206,10 @@ def tree_nontrivial(case, labels):
 def append_case(draw):
     s1 = [draw(st.integers(1, 4)), draw(st.integers(1, 12))]
     s2 = [draw(st.integers(1, 4)), draw(st.sampled_from([s1[1], draw(st.integers(1, 12))]))]
+    if draw(st.integers(0, 7)) == 0:
+        # an empty block: no rows yet (0, n) or no pixels (m, 0); its width and its rows still count
+        which = draw(st.sampled_from([s1, s2]))
+        which[draw(st.sampled_from([0, 1]))] = 0
     return dict(s1=s1, s2=s2, pixshift=draw(st.sampled_from([0, 1, -1, 2, -3, 5, -5, 4])), dtype=draw(st.sampled_from(['f8', 'i4', 'f4'])))
 
 
